@@ -16,8 +16,7 @@ RULE = ("scenario = capacity (0..300, mostly 1..5 and around the 64-bit leaf and
         "the full atomic-operation trace (thread, object, kind, old, new), call/return history, results, final tree and holdings are compared "
         "with the model (trace validation); non-trivial = at least two threads performed atomic operations; distinct = distinct scenario lines")
 TRUSTED = ["sequentially consistent atomics (all atomic operations of PageStack.cc use the default memory_order_seq_cst)",
-           "textual instrumentation std::atomic -> verif::atomic of a copy of src/ipc/mem/PageStack.{h,cc} (plus `StoredNode().is_lock_free()` -> true, "
-           "which the shim does not provide); ucontext coroutine scheduler",
+           "textual instrumentation std::atomic -> verif::atomic of a copy of src/ipc/mem/PageStack.{h,cc}; ucontext coroutine scheduler",
            "no atomic load happens inside an assert() of PageStack.cc; the asserted conditions are theorems (asserts_hold, no_bad)",
            "the linearizability search and ownership re-check in props/C53.py (the direct oracle), the ownership table in harness/c53.cc"]
 ASSUMPTIONS = ["callers respect the method contract: push() only a page the caller holds (obtained from pop() or, for a stack created empty, "
@@ -31,7 +30,7 @@ MANIFEST = {
             "exact subtree totals, free bits = exactly the pages nobody holds, size_ exact, and a pop run alone succeeds within 2H+3 operations with a "
             "free page), no_bad / asserts_hold / counters_never_overflow (no assert of PageStack.cc can fire, size_ never underflows, packed counters "
             "never carry), via an inductive counting invariant (inv_step, one lemma per atomic action). constructor_agrees_small + gen_constants_match tie "
-            "the initial tree and the constants to the source; createFull_shift64_counterexample is the known finding. The model's atomic actions are "
+            "the initial tree and the constants to the source; createFull_shift64_counterexample records the pre-fix variant of the repaired defect (fix 1ff5fc0). The model's atomic actions are "
             "validated against the real code by replaying scheduler-controlled executions of an instrumented copy of PageStack.cc and comparing the "
             "complete operation trace, history, results and final node array.",
     "note": "trusted: Lean kernel; SC memory model; the sed-instrumentation and coroutine scheduler; ownership/linearizability oracle. Not modelled: "
@@ -43,12 +42,7 @@ MANIFEST = {
 
 def build_exe(stage):
     root = ipccopy.make_copies(stage, ["ipc/mem/PageStack.h", "ipc/mem/PageStack.cc"])
-    # the shim has no is_lock_free(); the instrumented atomic is a plain word, so the asserted fact is trivially true
     p = os.path.join(root, "ipc/mem/PageStack.cc")
-    text = open(p).read()
-    text2 = text.replace("StoredNode().is_lock_free()", "true")
-    if text2 != text:
-        open(p, "w").write(text2)
     fl = ipccopy.flags(root)
     ub = ["-fsanitize=undefined", "-fno-sanitize-recover=all"]
     objs = [stage.compile(p, sanitize=False, pre=fl, extra=ub),
@@ -113,12 +107,9 @@ def height(cap):
     return h
 
 
-def ub_cap(cap):
-    """createFull with this capacity executes `node >>= 64` in IdSet::leafTruncate (known finding C53-leaftruncate-shift64)"""
+def mult64_cap(cap):
+    """capacities whose first unused leaf is emptied by leafTruncate(pos, 0): before fix 1ff5fc0 that was `node >>= 64` (UB)"""
     return cap % 64 == 0 and cap != 64 * 2 ** height(cap)
-
-
-UB_WITNESSES = [0, 64, 192]
 
 
 def gen_case(rng):
@@ -130,8 +121,6 @@ def gen_case(rng):
     else:
         cap = rng.range(0, 300)
     mode = "F" if rng.chance(3, 5) else "E"
-    if mode == "F" and ub_cap(cap):
-        mode = "E"     # each UBSan abort costs ~2 s (symbolised report + harness restart): the witnesses are listed once in cases()
     n = rng.choice([2, 2, 2, 3, 3, 4, 1])
     per = [gen_ops(rng, mode, cap > 8) for _ in range(n)]
     steps = sum(len(o) for o in per) * (2 * height(cap) + 3)
@@ -155,8 +144,6 @@ def mutate(rng, line):
         cap = str(max(0, int(cap) + rng.choice([-1, 1, 64, -64])))
     else:
         mode = "E" if mode == "F" else "F"
-    if mode == "F" and ub_cap(int(cap)):
-        mode = "E"
     return fmt(int(cap), mode, per, sc)
 
 
@@ -193,12 +180,12 @@ def cases(rng, tier):
         yield l
     # capacities 0..260 with no concurrency at all: the constructor's fill/truncate against the model's closed form
     for cap in (range(0, 521) if tier == "thorough" else list(range(0, 70)) + [126, 127, 128, 129, 130, 191, 192, 193, 255, 256, 257, 300, 384, 385, 500]):
-        if not ub_cap(cap):
-            yield fmt(cap, "F", [["P", "P", "U1", "P"]], [])
+        yield fmt(cap, "F", [["P", "P", "U1", "P"]], [])
         yield fmt(cap, "E", [["U0", "U5", "P", "P"], ["U3"]], [])
-    # witnesses of the known finding C53-leaftruncate-shift64 (quick: those in corpus/C53 only; every abort costs ~2 s)
-    for cap in ([320, 384, 4032] if tier == "thorough" else []):
-        yield fmt(cap, "F", [["P"]], [])
+    # regression for fix 1ff5fc0: full stacks whose capacity is a multiple of 64 but not 64*2^k, with concurrency
+    for cap in [64, 192, 320, 384] + ([448, 576, 4032] if tier == "thorough" else []):
+        assert mult64_cap(cap)
+        yield fmt(cap, "F", [["P", "P", "U1", "P"], ["P", "U0", "P"]], gen_schedule(rng, 2, 20))
     # bounded-exhaustive schedules
     L = 13 if tier == "thorough" else 10
     for cap, mode, per in (EXH_PAIRS if tier == "thorough" else EXH_PAIRS[:4]):
@@ -344,15 +331,6 @@ def oracle(line, impl):
     size = int(f["final"].split("/")[0])
     if size != cap - len(holder):
         return "size_ = %d at quiescence but %d pages are free" % (size, cap - len(holder))
-    return None
-
-
-def classify(line, impl, why):
-    """known finding: the constructor's shift by 64 (UBSan abort while building a full stack of such a capacity)"""
-    toks = line.split(" ")
-    if (len(toks) == 5 and toks[1] == "F" and toks[0].isdigit() and ub_cap(int(toks[0]))
-            and impl.startswith("abort:") and "shift_exponent_64" in impl and "PageStack.cc" in impl):
-        return "C53-leaftruncate-shift64"
     return None
 
 
